@@ -103,6 +103,36 @@ def cycle_loops(fi: FunctionInfo, ctx=None) -> List[Dict]:
         b = fi.resolve(n.func.id)
         return b is not None and b.kind == "func" and wrap_helper(b.target.node)
 
+    # pairing idiom:  for p, q in zip(X, X[1:] + X[:1])  -- consecutive elements of X, closing pair included
+    for zl in walk_local(fi.node):
+        it = None
+        if isinstance(zl, ast.For):
+            it = zl.iter
+        elif isinstance(zl, ast.comprehension):
+            it = zl.iter
+        if not (isinstance(it, ast.Call) and isinstance(it.func, ast.Name) and it.func.id == "zip" and len(it.args) == 2):
+            continue
+        X = norm(it.args[0])
+        second = expand_locals(fi.node, it.args[1], fi.params, defs=sdefs)
+
+        def shifted(e, lo, hi):
+            """X[lo:hi] with constant bounds"""
+            if not (isinstance(e, ast.Subscript) and isinstance(e.slice, ast.Slice) and e.slice.step is None and txt(e.value) == X):
+                return False
+            def val(b):
+                return None if b is None else (b.value if isinstance(b, ast.Constant) else "?")
+            return val(e.slice.lower) == lo and val(e.slice.upper) == hi
+
+        mentions = any(isinstance(x, ast.Subscript) and txt(x.value) == X and isinstance(x.slice, ast.Slice) for x in ast.walk(second))
+        if not mentions:
+            continue
+        problems = []
+        if not (isinstance(second, ast.BinOp) and isinstance(second.op, ast.Add) and shifted(second.left, 1, None)
+                and shifted(second.right, None, 1)):
+            problems.append("`%s` pairs the elements of `%s` with `%s`, which is not the rotation X[1:] + X[:1]: the closing pair "
+                            "(last, first) or some other pair is not visited" % (txt(it), X, txt(second)))
+        out.append({"loop": zl if isinstance(zl, ast.For) else it, "var": "pair", "range": txt(it), "flows": 1, "problems": problems,
+                    "idiom": "zip with rotation"})
     for loop, i, it, body in _loops(fi):
         if not (isinstance(it, ast.Call) and isinstance(it.func, ast.Name) and it.func.id == "range"):
             continue
